@@ -11,6 +11,8 @@ for kind, f in (('seeded', '/tmp/regress_seeded.json'), ('benign', '/tmp/regress
         m = re.search(r'/verif/' + kind + r'/(C\d\d-\d+)/?$', r['dir'])
         if not m or not r.get('ok'):
             continue
+        if len(r.get('checks') or {}) < 19:
+            raise SystemExit(f'{f} was produced by a run restricted to {sorted(r.get("checks") or {})}: not refreshing the recorded outcomes from it')
         mp = VERIF / kind / m.group(1) / 'meta.json'
         meta = json.load(open(mp))
         if kind == 'seeded':
